@@ -106,7 +106,8 @@ Print Assumptions C09_sender_kth.
    under sequence number 3) deleted, both sides carry on and the client reads the server's packets 4, 5
    under its own 4, 5: a working session with a packet missing. *)
 Theorem C09_nonstrict_shift_exists :
-  let n := scenario (cfg_of Client KDH false true) (cfg_of Server KDH false true) terrapin_script false in
+  let n := scenario (cfg_of Client KDH false true false) (cfg_of Server KDH false true false)
+                    terrapin_script 0 in
   o_c n = Continue /\ o_s n = Continue /\
   tx_s n = [20; 0; 31; 1; 21; 2; 7; 3; 6; 4; 52; 5] /\
   rx_c n = [20; 0; 31; 1; 2; 2; 21; 3; 6; 4; 52; 5].
@@ -115,10 +116,30 @@ Print Assumptions C09_nonstrict_shift_exists.
 
 (* the same script against strict peers: MessageOrderError at the IGNORE *)
 Theorem C09_strict_same_script_aborts :
-  let n := scenario (cfg_of Client KDH true true) (cfg_of Server KDH true true) terrapin_script false in
+  let n := scenario (cfg_of Client KDH true true false) (cfg_of Server KDH true true false)
+                    terrapin_script 0 in
   o_c n = AbortMOE /\ rx_c n = [20; 0; 31; 1; 2; 2].
 Proof. exact strict_no_shift_same_script. Qed.
 Print Assumptions C09_strict_same_script_aborts.
+
+(* Strict mode is latched by the initial exchange.  Once agreed (st1: any reachable state with the flag
+   set), whatever the transport is fed afterwards -- any number of re-keys, KEXINITs with the peer's
+   kex-strict name or, like OpenSSH's re-key KEXINITs, without one -- the flag stays set, hence both
+   counters are reset at every later NEWKEYS.  (The code re-evaluates the flag when a KEXINIT carries a
+   kex-strict-* name, so a name of the wrong role on a re-key would clear it; such a KEXINIT can only come
+   from the authenticated peer itself -- see sticky_needs_honest_marker in the proofs file.  "Not agreed
+   stays not agreed" likewise holds only for peers that never add the name later.) *)
+Theorem C09_strict_sticky :
+  forall mac_ok c ins1 st1 outs1 ins2 o st2 outs2,
+    session mac_ok c ins1 = (Continue, st1, outs1) -> agreed st1 = true ->
+    peer_run mac_ok c st1 ins2 = (o, st2, outs2) ->
+    (forall p, In p (recvs ins2) -> p_type p = MSG_KEXINIT -> p_marker p = 0 \/ p_marker p = 1) ->
+    agreed st2 = true /\
+    (forall p st3 outs3, step mac_ok c st2 p = (Continue, st3, outs3) -> p_type p = MSG_NEWKEYS ->
+       seq_in st3 = 0) /\
+    seq_out (fst (send1 c st2 MSG_NEWKEYS)) = 0.
+Proof. exact strict_sticky. Qed.
+Print Assumptions C09_strict_sticky.
 
 (* ---- non-vacuity ---- *)
 (* the borrowed premise is satisfiable *)
@@ -126,8 +147,8 @@ Example C09_mac_premise_satisfiable : mac_binds mac_ideal.
 Proof. exact mac_ideal_binds. Qed.
 
 Definition ex_pk (t m e s : Z) : pkt := {| p_type := t; p_ok := true; p_marker := m; p_epoch := e; p_mseq := s |}.
-Definition ex_cC := cfg_of Client KDH true true.
-Definition ex_cS := cfg_of Server KDH true true.
+Definition ex_cC := cfg_of Client KDH true true false.
+Definition ex_cS := cfg_of Server KDH true true false.
 
 (* C09_strict_abort's hypotheses hold in a concrete state (client that has read the server's KEXINIT
    and waits for KEXECDH_REPLY), where an IGNORE indeed raises MessageOrderError *)
@@ -156,4 +177,11 @@ Example C09_no_shift_example :
   recvs ex_insR = ex_outsS /\   (* so every protected packet fed to R is one S sent *)
   map p_type (filter enc (recvs ex_insR)) = [7; 6; 52] /\
   filter enc (recvs ex_insR) = filter enc ex_outsS.
+Proof. vm_compute. repeat split; reflexivity. Qed.
+
+(* C09_strict_sticky's situation: strict agreed, then a re-key whose KEXINIT carries no kex-strict name *)
+Example C09_strict_sticky_example :
+  let n := scenario (cfg_of Client KDH true true false) (cfg_of Server KDH true true true) [] 2 in
+  o_c n = Continue /\ o_s n = Continue /\ agreed (n_c n) = true /\ agreed (n_s n) = true /\
+  ep_in (n_c n) = 3 /\ seq_in (n_c n) = 2.
 Proof. vm_compute. repeat split; reflexivity. Qed.
